@@ -22,11 +22,11 @@ func init() {
 		Level: "exploration",
 		Rule: "a case is (write script from the C01 generator with Flush/Wait at arbitrary points, wc in {1,2,3,4,8}, level, hook level, seeded 0-3 ms delays of underlying writes). The io.Writer handed to the Writer records the delivered length after every underlying Write returns, with the number of bytes offered to the API at that moment. " +
 			"Oracle (independent framing parser + flate): every recorded length is a member boundary of the final stream; the members decode, in order, to a prefix of the written data; no snapshot holds more than was offered; after Flush then Wait both returned nil the delivered members decode to at least all data written before that Flush; after Close nil everything followed by the EOF marker. bam cases: when bam.NewWriter returns, the delivered bytes already decode to the complete binary header. " +
-			"Non-trivial: >= 2 data blocks delivered and >= 1 Flush+Wait checkpoint. Interleavings observed = distinct hook-trace shapes.",
+			"durability-fault cases make the k-th underlying write fail (slowly, once or from then on): a call that returns the fault ends the case, but a Flush+Wait or Close that returns nil still promises the same. Non-trivial: >= 2 data blocks delivered and >= 1 Flush+Wait checkpoint. Interleavings observed = distinct hook-trace shapes.",
 		Floor:       map[string]int{"quick": 120, "thorough": 1500},
 		Plan:        c12Plan,
 		Run:         c12Run,
-		Assumptions: []string{"the underlying writer accepts every write completely (no faults here; C09 covers faults)", "schedules are sampled"},
+		Assumptions: []string{"durability-fault cases judge only what nil returns promise (Flush+Wait nil, Close nil); that a fault is reported by some call is C09's clause", "schedules are sampled"},
 		TimeoutS:    map[string]int{"quick": 900, "thorough": 3400},
 	})
 }
@@ -50,6 +50,13 @@ func c12Plan(seed int64, tier string) []core.Case {
 		}}
 		if i%10 == 9 {
 			c.Kind = "bam-header"
+		}
+		if i%10 == 4 || i%10 == 6 {
+			// the underlying writer fails at its k-th write, slowly, so that
+			// the failure lands while Wait or Close is waiting
+			c.Kind = "durability-fault"
+			c.P["failat"] = int64(1 + rng.Intn(6))
+			c.P["delay"] = int64(1 + rng.Intn(2))
 		}
 		if i%7 == 0 {
 			c.Race = true
@@ -125,9 +132,33 @@ func c12Run(c core.Case) *core.Result {
 			return time.Duration(x*3) * time.Microsecond
 		}
 	}
+	faulty := c.Kind == "durability-fault"
+	if faulty {
+		w.FailAt = c.Int("failat")
+		w.FailOnce = rng.Intn(3) == 0
+		cfg += fmt.Sprintf(" underlying write %d fails (once=%v)", w.FailAt, w.FailOnce)
+	}
 	if c.Kind == "bam-header" {
 		w.Offered = nil
+		if c.ID%3 == 0 {
+			// the header write fails, slowly: NewWriter returning nil still promises the header
+			w.FailAt = 1 + rng.Intn(2)
+			if w.Delay == nil {
+				w.Delay = func(int) time.Duration { return 300 * time.Microsecond }
+			}
+			cfg += fmt.Sprintf(" underlying write %d fails", w.FailAt)
+		}
 		return c12Bam(r, c, w, cfg)
+	}
+	// reported: an API call returned the injected fault; from then on nothing
+	// is promised and the case ends (C09 judges that some call reports it).
+	reported := func(op string, err error) bool {
+		if faulty && err != nil {
+			r.Count("fault_reported_by_"+op, 1)
+			r.Nontrivial = true
+			return true
+		}
+		return false
 	}
 	script := gen.RandScript(rng, 16, 6*gen.BlockSize)
 	// Make Flush→Wait checkpoints common: insert one or two pairs.
@@ -167,6 +198,10 @@ func c12Run(c core.Case) *core.Result {
 					for k := range scratch {
 						scratch[k] ^= 0x5a // the writer must not retain the caller's buffer
 					}
+					if reported("Write", err) {
+						bw.Close()
+						return
+					}
 					if err != nil || n != op.Len {
 						r.Violate("writer|call-error", "%s: op %d Write(%d) = (%d, %v)", cfg, i, op.Len, n, err)
 						bw.Close()
@@ -174,14 +209,20 @@ func c12Run(c core.Case) *core.Result {
 					}
 					written += op.Len
 				case 'F':
-					if err := bw.Flush(); err != nil {
+					if err := bw.Flush(); reported("Flush", err) {
+						bw.Close()
+						return
+					} else if err != nil {
 						r.Violate("writer|call-error", "%s: op %d Flush: %v", cfg, i, err)
 						bw.Close()
 						return
 					}
 					flushed = written
 				case 'A':
-					if err := bw.Wait(); err != nil {
+					if err := bw.Wait(); reported("Wait", err) {
+						bw.Close()
+						return
+					} else if err != nil {
 						r.Violate("writer|call-error", "%s: op %d Wait: %v", cfg, i, err)
 						bw.Close()
 						return
@@ -202,9 +243,14 @@ func c12Run(c core.Case) *core.Result {
 					}
 				}
 			}
-			if err := bw.Close(); err != nil {
+			if err := bw.Close(); reported("Close", err) {
+				return
+			} else if err != nil {
 				r.Violate("writer|close-error", "%s: Close: %v", cfg, err)
 				return
+			}
+			if faulty {
+				r.Count("fault_not_reached_or_close_nil", 1)
 			}
 			out := w.Bytes()
 			ms, _ := checkDelivered(r, cfg, w, model)
@@ -259,6 +305,11 @@ func c12Bam(r *core.Result, c core.Case, w *mon.RecWriter, cfg string) *core.Res
 		traced(r, c.Seed, c.Int("hook"), "interleavings", func(t *mon.Tracer) {
 			bw, err := bam.NewWriterLevel(w, h, c.Int("level"), c.Int("wc"))
 			if err != nil {
+				if w.FailAt > 0 {
+					r.Count("fault_reported_by_NewWriter", 1)
+					r.Nontrivial = true
+					return
+				}
 				r.Violate("bam|new", "%s: NewWriter: %v", cfg, err)
 				return
 			}
@@ -276,6 +327,10 @@ func c12Bam(r *core.Result, c core.Case, w *mon.RecWriter, cfg string) *core.Res
 				}
 			}
 			if err := bw.Close(); err != nil {
+				if w.FailAt > 0 {
+					r.Count("fault_reported_by_Close", 1)
+					return
+				}
 				r.Violate("bam|close", "%s: Close: %v", cfg, err)
 			}
 			checkDelivered(r, cfg, w, want)
